@@ -78,6 +78,28 @@ def probe(rec, rng, tagprefix="splineplan"):
                 ref_a = np.array([amax * 5.0])
             else:
                 ref_a = np.array([amax * (1 - 1e-12)])
+            if guard == "smooth":
+                # the smoothed exponent itself: its returned density derivative is the derivative of the returned value, and
+                # points whose raw exponent is far above the bound (saturated) carry no derivative at all
+                a0 = settings.theta_params[0] if i == -1 else settings.feat_params[i][0]
+                araw = amax * np.exp(rng.uniform(np.log(0.05), np.log(30.0), size=80))
+                rho = np.ascontiguousarray(_rho_for_exponent(araw, a0, nspin))
+                sig = np.zeros_like(rho)
+                h = 1e-5
+                a_s, d_s = plan.eval_feat_exp((rho.copy(), sig.copy()), i=i)
+                a_s, dn = np.array(a_s), np.array(d_s[0])
+                ap = np.array(plan.eval_feat_exp((rho * (1 + h), sig.copy()), i=i)[0])
+                am = np.array(plan.eval_feat_exp((rho * (1 - h), sig.copy()), i=i)[0])
+                fd = (ap - am) / (2 * h * rho)
+                rawd = (2.0 / 3.0) * araw / rho
+                rec.check("smooth_cutoff_exponent_derivative", float(np.max(np.abs(dn - fd) / rawd)), 1e-6,
+                          mechanism=mech + ":exponent-derivative", detail={"config": cfg, "i": i})
+                satd = araw > 3.0 * amax
+                if satd.any():
+                    rec.check("smooth_cutoff_saturated_points_inert", float(np.max(np.abs(dn[satd]) / rawd[satd])), 1e-9,
+                              mechanism=mech + ":saturated-exponent-derivative-nonzero", detail={"config": cfg, "i": i})
+                    rec.check("smooth_cutoff_saturated_value", float(np.max(np.abs(a_s[satd] / amax - 1))), 1e-9,
+                              mechanism=mech + ":saturated-exponent-value", detail={"config": cfg, "i": i})
             _, p0, dp0, _ = _coefs(plan, ref_a, i, nspin)
             arga, pa, dpa, darg = _coefs(plan, above, i, nspin)
             rec.require("index_in_table", bool(np.all(arga >= 0) and np.all(arga < size - 1 + 1e-9)),
